@@ -45,6 +45,10 @@ LEAVES = {
     "p_t2": ("shifted", "N", False),
     "p_i1": ("shifted", "N", False),
     "p_i2": ("shifted", "N", False),
+    "p_rev_t1": ("shifted", "N", False),
+    "p_rev_t2": ("shifted", "N", False),
+    "p_rev_i1": ("shifted", "N", False),
+    "p_rev_i2": ("shifted", "N", False),
     "p_first_t1": ("shifted", "N1", False),
     "p_first_i2": ("shifted", "N1", False),
     "dense": ("constvec", "N", False),
@@ -69,7 +73,7 @@ LEAVES = {
 SCALAR_VALUES = {"Scalar2": 2.0, "ScalarN": -1.5, "pyfloat": 0.5, "pyint": 2}
 
 # reduced leaf alphabet used inside depth-2 programs
-INNER_LEAVES = ["p", "s", "p_first", "u", "p_t1", "p_i2", "dense", "nparr", "tdd", "Scalar2", "pyfloat", "pyint", "S_csr", "spmat", "S_u", "proj", "projlist"]
+INNER_LEAVES = ["p", "s", "p_rev", "p_rev_t1", "p_first", "u", "p_t1", "p_i2", "dense", "nparr", "tdd", "Scalar2", "pyfloat", "pyint", "S_csr", "spmat", "S_u", "proj", "projlist"]
 ELEMENTWISE = ("add", "sub", "mul", "div", "pow")
 
 
@@ -89,7 +93,7 @@ def leaf_names(grid):
         sz = _sym(grid, size)
         if sz == 0 or (isinstance(sz, tuple) and 0 in sz):
             continue
-        if name == "p_rev" and grid != "frac":
+        if name.startswith("p_rev") and grid != "frac":
             continue
         out.append(name)
     return out
